@@ -278,7 +278,18 @@ func (p *Parser) StmtsSeq(r io.Reader) iter.Seq2[*Stmt, error] {
 	return func(yield func(*Stmt, error) bool) {
 		p.rune()
 		p.next()
-		p.stmts(yield)
+		stopped := false
+		p.stmts(func(s *Stmt, err error) bool {
+			if !yield(s, err) {
+				stopped = true
+			}
+			return !stopped
+		})
+		if stopped {
+			// The consumer left the loop, so yield must not be called again;
+			// do not read any further either.
+			return
+		}
 		if p.err == nil {
 			// EOF immediately after heredoc word so no newline to
 			// trigger the parsing error.
@@ -298,6 +309,7 @@ type wrappedReader struct {
 	lastLine    int64
 	accumulated []*Stmt
 	yield       func([]*Stmt, error) bool
+	stopped     bool // yield returned false; it must not be called again
 }
 
 func (w *wrappedReader) Read(p []byte) (n int, err error) {
@@ -308,11 +320,13 @@ func (w *wrappedReader) Read(p []byte) (n int, err error) {
 		if w.p.Incomplete() {
 			// Incomplete statement; call back to print "> ".
 			if !w.yield(w.accumulated, w.p.err) {
+				w.stopped = true
 				return 0, io.EOF
 			}
 		} else if len(w.accumulated) == 0 {
 			// Nothing was parsed; call back to print another "$ ".
 			if !w.yield(nil, w.p.err) {
+				w.stopped = true
 				return 0, io.EOF
 			}
 		}
@@ -365,6 +379,11 @@ func (p *Parser) InteractiveSeq(r io.Reader) iter.Seq2[[]*Stmt, error] {
 	return func(yield func([]*Stmt, error) bool) {
 		w := wrappedReader{p: p, rd: r, yield: yield}
 		for stmts, err := range p.StmtsSeq(&w) {
+			if w.stopped {
+				// The callback returned false while the parser was reading;
+				// whatever the parser made of the forced EOF is of no interest.
+				break
+			}
 			w.accumulated = append(w.accumulated, stmts)
 			if err != nil {
 				if !yield(w.accumulated, err) {
